@@ -29,7 +29,8 @@ static J gen_repro(Chooser &ch)
     f0["grains models"] = l;
   }
   const bool file_seed = ch.chance(40);
-  if (file_seed) w.root["random number seed"] = static_cast<int>(ch.range(0, 100000));
+  // the entry accepts every value >= 0 (its default -1 means "not given"): 0 and 1 are as valid as any other seed
+  if (file_seed) w.root["random number seed"] = ch.chance(35) ? static_cast<int>(ch.range(0, 2)) : (ch.chance(20) ? 2147483647 - static_cast<int>(ch.range(0, 3)) : static_cast<int>(ch.range(0, 100000)));
   J c = J::obj();
   c["world"] = w.root.dump();
   c["seed"] = ch.pick<double>({1.0, 0.0, 7.0, 123456789.0, 4294967295.0});
